@@ -26,7 +26,10 @@ type c03Subject struct {
 	ID    uint16
 	New   func() any
 	Parse func(recv any, body []byte) error
-	Seeds [][]byte
+	// ParseOther parses under the OTHER header version (nil when the subject has none): histories are also replayed
+	// with the earlier bodies arriving under that version (a connection's handler object sees whatever the peer sends)
+	ParseOther func(recv any, body []byte) error
+	Seeds      [][]byte
 }
 
 type c03Parser interface {
@@ -147,6 +150,13 @@ func c03Subjects() []c03Subject {
 				Parse: func(recv any, body []byte) error {
 					return recv.(c03Parser).Parse(c03Msg(ver, c.id, body))
 				},
+				ParseOther: func(recv any, body []byte) error {
+					other := consts.JT808Protocol2013
+					if ver == consts.JT808Protocol2013 {
+						other = consts.JT808Protocol2019
+					}
+					return recv.(c03Parser).Parse(c03Msg(other, c.id, body))
+				},
 				Seeds: seeds[c.id],
 			})
 		}
@@ -190,7 +200,7 @@ func c03Seeds() map[uint16][][]byte {
 		}
 	}
 	for _, f := range []string{"parse_test.go", "reply_test.go", "protocol_test.go", "t_0x0200_addition_extensions_test.go", "t_0x0200_addition_test.go", "t_terminal_params_test.go"} {
-		b, err := os.ReadFile("/repo/protocol/model/" + f)
+		b, err := os.ReadFile(repoRoot() + "/protocol/model/" + f)
 		if err != nil {
 			continue
 		}
@@ -481,23 +491,38 @@ func c03Eval(s *c03Subject, body []byte, history [][]byte) (sig, diag, class str
 		}
 	}
 	// history independence
-	if len(history) > 0 {
-		recv := s.New()
-		for _, h := range history {
-			if p := vc.Catch(func() { _ = s.Parse(recv, exact(h)) }); p != "" {
-				return "", "", "history-prefix-panics" // reported by the case of that body itself
+	for pass := 0; pass < 2 && len(history) > 0; pass++ {
+		parseHist, how := s.Parse, ""
+		if pass == 1 {
+			if s.ParseOther == nil {
+				break
 			}
+			parseHist, how = s.ParseOther, " under the other header version"
+		}
+		recv := s.New()
+		bad := false
+		for _, h := range history {
+			if p := vc.Catch(func() { _ = parseHist(recv, exact(h)) }); p != "" {
+				bad = true // reported by the case of that body itself
+				break
+			}
+		}
+		if bad {
+			if pass == 0 {
+				return "", "", "history-prefix-panics"
+			}
+			break
 		}
 		r := c03Run1(s, recv, exact(body), false)
 		if r.panic != "" {
-			return c03Type(s.Name) + ":history-panic:" + vc.PanicSite(r.panic), fmt.Sprintf("a receiver that parsed %d earlier bodies panics on %s: %s", len(history), where, r.panic), "history"
+			return c03Type(s.Name) + ":history-panic:" + vc.PanicSite(r.panic), fmt.Sprintf("a receiver that parsed %d earlier bodies%s panics on %s: %s", len(history), how, where, r.panic), "history"
 		}
 		if r.err != o.err {
-			return c03Type(s.Name) + ":history-verdict", fmt.Sprintf("fresh receiver: err=%q, receiver that parsed %s before: err=%q (%s)", o.err, hx(history[len(history)-1]), r.err, where), "history"
+			return c03Type(s.Name) + ":history-verdict", fmt.Sprintf("fresh receiver: err=%q, receiver that parsed %s before%s: err=%q (%s)", o.err, hx(history[len(history)-1]), how, r.err, where), "history"
 		}
 		if r.err == "" && r.dump != o.dump {
 			f := c03Trunc(c03DiffPath(reflect.ValueOf(o.recv), reflect.ValueOf(r.recv), "", 0))
-			return c03Type(s.Name) + ":history-state:" + f, fmt.Sprintf("result depends on what the receiver parsed before (%s after %s): field %s differs\n fresh:  %s\n reused: %s", where, hx(history[len(history)-1]), f, c03Short(o.dump), c03Short(r.dump)), "history"
+			return c03Type(s.Name) + ":history-state:" + f, fmt.Sprintf("result depends on what the receiver parsed before (%s after %s%s): field %s differs\n fresh:  %s\n reused: %s", where, hx(history[len(history)-1]), how, f, c03Short(o.dump), c03Short(r.dump)), "history"
 		}
 	}
 	if o.err != "" {
@@ -770,4 +795,12 @@ func c03Class(s *c03Subject, body []byte) string {
 		return "error"
 	}
 	return "ok"
+}
+
+// repoRoot is /repo unless VERIF_REPO names another checkout (seeded-change testing).
+func repoRoot() string {
+	if r := os.Getenv("VERIF_REPO"); r != "" {
+		return r
+	}
+	return "/repo"
 }
